@@ -52,8 +52,15 @@ type lockWorld struct {
 }
 
 type lockTxSpec struct {
-	ins  [][3]int // kind a b
-	outs [][]int
+	actor int      // 0 none; otherwise Extra starts with the signer / payee keys of this actor
+	ins   [][3]int // kind a b
+	outs  []lockOut
+}
+
+// lockOut: one output, its type byte and its one-time keys
+type lockOut struct {
+	typ  int
+	keys []int
 }
 
 // Opening and closing a Badger store costs 0.3-2 s (more once populated), so one store serves lockCasesPerStore
@@ -267,19 +274,74 @@ func (w *lockWorld) defTx(id int, spec *lockTxSpec) {
 		}
 	}
 	mask := w.ghostKeyOf(899)
-	for _, ks := range spec.outs {
-		out := &common.Output{Type: common.OutputTypeScript, Amount: common.NewInteger(1), Script: common.NewThresholdScript(1), Mask: mask}
-		for _, k := range ks {
+	custodian := false
+	for _, o := range spec.outs {
+		out := &common.Output{Type: uint8(o.typ), Amount: common.NewInteger(1), Script: common.NewThresholdScript(1), Mask: mask}
+		if o.typ == common.OutputTypeWithdrawalSubmit {
+			out.Withdrawal = &common.WithdrawalData{Address: "0xverif", Tag: ""}
+		}
+		custodian = custodian || o.typ == common.OutputTypeCustodianUpdateNodes
+		for _, k := range o.keys {
 			key := w.ghostKeyOf(k)
 			out.Keys = append(out.Keys, &key)
 		}
 		tx.Outputs = append(tx.Outputs, out)
 	}
-	tx.Extra = []byte(fmt.Sprintf("verif-tx-%d-%d", w.salt, id))
+	// Extra: node outputs read signer ‖ payee from its first 64 bytes, a custodian update
+	// output parses all of it. References: a withdrawal claim reads References[0] (must be a
+	// finalized transaction: the first funding transaction); the last reference makes the hash
+	// unique per (case, id).
+	tag := []byte(fmt.Sprintf("verif-tx-%d-%d", w.salt, id))
+	switch {
+	case custodian:
+		tx.Extra = lockCustodianExtra()
+	case spec.actor > 0:
+		signer, payee := w.actorKey(spec.actor, "signer"), w.actorKey(spec.actor, "payee")
+		tx.Extra = append(append(append([]byte{}, signer[:]...), payee[:]...), tag...)
+	default:
+		tx.Extra = tag
+	}
+	if id != 1 {
+		tx.References = append(tx.References, w.txHash(1))
+	}
+	tx.References = append(tx.References, crypto.Blake3Hash(tag))
 	ver := tx.AsVersioned()
 	w.txs[id] = ver
 	w.txSpec[id] = spec
 	w.hashToID[ver.PayloadHash()] = id
+}
+
+// caseTime: node and custodian records are global and read "as of snapshot time + 12h"; every
+// case lives 2e14 ns (2.3 days) *before* the previous one, so records of earlier cases (later
+// times) are invisible to it and each case starts from an empty node / custodian history.
+func (w *lockWorld) caseTime() uint64 { return 3_000_000_000_000_000_000 - uint64(w.salt)*200_000_000_000_000 }
+
+func (w *lockWorld) actorKey(a int, role string) crypto.Key {
+	seed := make([]byte, 64)
+	copy(seed, []byte(fmt.Sprintf("verif-actor-%d-%d-%s", w.salt, a, role)))
+	return crypto.NewKeyFromSeed(seed).Public()
+}
+
+var lockCustodianExtraCache []byte
+
+// lockCustodianExtra: a well-formed, fully signed custodian update extra (7 nodes), built with
+// the repository's own encoder; ParseCustodianUpdateNodesExtra must accept it.
+func lockCustodianExtra() []byte {
+	if lockCustodianExtraCache != nil {
+		return lockCustodianExtraCache
+	}
+	r := NewRand(0xc04)
+	net := crypto.Blake3Hash([]byte("verif-locks-network"))
+	es := c34Entries(r, 7, net)
+	c34Sort(es)
+	cust := c34Addr(r)
+	extra := c34Assemble(cust, es)
+	extra = append(extra, c34Sign(cust.PrivateSpendKey, extra)...)
+	if _, err := common.ParseCustodianUpdateNodesExtra(extra, false); err != nil {
+		panic("harness: custodian extra does not parse: " + err.Error())
+	}
+	lockCustodianExtraCache = extra
+	return extra
 }
 
 // dump renders the lock-related key families exactly like Mixin.Driver.Locks.render. Keys that
@@ -471,14 +533,14 @@ func atoiList(f []string) ([]int, bool) {
 	return out, true
 }
 
-// parseLockTx parses "id nin {kind a b}* nout {nk k*}*".
+// parseLockTx parses "id actor nin {kind a b}* nout {typ nk k*}*".
 func parseLockTx(a []int) (int, *lockTxSpec, bool) {
-	if len(a) < 2 {
+	if len(a) < 3 {
 		return 0, nil, false
 	}
-	id, nin := a[0], a[1]
-	p := 2
-	spec := &lockTxSpec{}
+	id, nin := a[0], a[2]
+	p := 3
+	spec := &lockTxSpec{actor: a[1]}
 	for i := 0; i < nin; i++ {
 		if p+3 > len(a) || a[p] > 3 {
 			return 0, nil, false
@@ -492,15 +554,15 @@ func parseLockTx(a []int) (int, *lockTxSpec, bool) {
 	nout := a[p]
 	p++
 	for i := 0; i < nout; i++ {
-		if p >= len(a) {
+		if p+1 >= len(a) || a[p] > 255 {
 			return 0, nil, false
 		}
-		nk := a[p]
-		p++
+		typ, nk := a[p], a[p+1]
+		p += 2
 		if p+nk > len(a) {
 			return 0, nil, false
 		}
-		spec.outs = append(spec.outs, append([]int{}, a[p:p+nk]...))
+		spec.outs = append(spec.outs, lockOut{typ: typ, keys: append([]int{}, a[p:p+nk]...)})
 		p += nk
 	}
 	if p != len(a) {
@@ -526,6 +588,7 @@ type lockCall struct {
 	ids   []int // writetx / snapshot transaction ids
 	node  int
 	line  string
+	errText string
 	// race only: transactions whose body a concurrent WriteTransaction of the same race stored
 	// (it may legitimately land after the prune when its own inputs are still locked by it)
 	rewrote map[string]bool
@@ -534,16 +597,39 @@ type lockCall struct {
 // runLockCall runs a prepared call; Badger's optimistic conflicts (WriteTransaction and
 // WriteSnapshot commit without / across the store mutex) are retried like the kernel does.
 func runLockCall(fn func() error) string {
+	out, _ := runLockCallText(fn)
+	return out
+}
+
+// runLockCallText also returns the error text (used only to tell a ghost-key refusal from a
+// refusal by the node / custodian / withdrawal side effect of a finalized output).
+func runLockCallText(fn func() error) (string, string) {
+	text := ""
 	out, _, _ := Catch(func() string {
 		for i := 0; ; i++ {
 			err := fn()
 			if err != nil && i < 200 && strings.Contains(err.Error(), "Transaction Conflict") {
 				continue
 			}
+			if err != nil {
+				text = err.Error()
+			}
 			return lockErrClass(err)
 		}
 	})
-	return out
+	return out, text
+}
+
+// lockSideFlag: what the model is told about the side effects of the finalized outputs (they
+// are outside the model): 0 = none failed, 1 = one returned an error, 2 = one panicked.
+func lockSideFlag(res, text string) int {
+	switch {
+	case res == "reject" && !strings.Contains(text, "ghost key"):
+		return 1
+	case res == "panic":
+		return 2
+	}
+	return 0
 }
 
 // execLockCall performs the real storage call.
@@ -552,7 +638,8 @@ func (w *lockWorld) execLockCall(line string) (res string, call *lockCall, ok bo
 	if !ok {
 		return "", nil, false
 	}
-	return runLockCall(fn), call, true
+	res, call.errText = runLockCallText(fn)
+	return res, call, true
 }
 
 // prepareLockCall parses a call line and builds the real arguments (all bookkeeping of the
@@ -561,6 +648,9 @@ func (w *lockWorld) prepareLockCall(line string) (call *lockCall, fn func() erro
 	f := strings.Fields(line)
 	if len(f) == 0 {
 		return nil, nil, false
+	}
+	if n := len(f); n >= 3 && f[n-2] == "!" { // replayed observed form of `snapshot`
+		f = f[:n-2]
 	}
 	a, good := atoiList(f[1:])
 	if !good {
@@ -646,7 +736,7 @@ func (w *lockWorld) prepareLockCall(line string) (call *lockCall, fn func() erro
 		lockTopo++
 		snap := &common.SnapshotWithTopologicalOrder{
 			Snapshot: &common.Snapshot{Version: common.SnapshotVersionCommonEncoding, NodeId: w.nodes[call.node],
-				RoundNumber: 1, References: lockRoundRefs, Timestamp: 1000 + lockTopo, Transactions: hashes},
+				RoundNumber: 1, References: lockRoundRefs, Timestamp: w.caseTime() + lockTopo, Transactions: hashes},
 			TopologicalOrder: lockTopo,
 		}
 		snap.Hash = snap.PayloadHash()
@@ -778,18 +868,37 @@ func (w *lockWorld) lockProperty(call *lockCall, res string, pre, post []string,
 			fail("C04:duplicate-accepted", "a key list with a repeated key was accepted")
 		}
 	case "snapshot":
+		// Every output the real UnspentOutputs() materialises, of whatever type: none of its keys
+		// may belong to another transaction when the finalization succeeds, and after a
+		// successful finalization every one of them reads back (ReadGhostKeyLock) as bound to
+		// the finalized transaction.
 		for _, id := range call.ids {
 			if _, fin := pm["F"+strconv.Itoa(id)]; fin {
 				continue
 			}
-			for _, ks := range w.txSpec[id].outs {
-				for _, k := range ks {
+			ver := w.txs[id]
+			var utxos []*common.UTXOWithLock
+			if _, p, _ := Catch(func() string { utxos = ver.UnspentOutputs(); return "" }); p {
+				continue
+			}
+			for _, u := range utxos {
+				for _, kp := range u.Keys {
+					k := w.ghostIDs[*kp]
 					if v, ok := pm["G"+strconv.Itoa(k)]; ok && v != strconv.Itoa(id) {
 						conflict = true
 						if res == "ok" {
-							fail("C04:finalize-foreign-key", fmt.Sprintf("finalized %d with key %d bound to %s", id, k, v))
+							fail("C04:finalize-foreign-key", fmt.Sprintf("finalized %d (output %d type %#x) with key %d bound to %s", id, u.Index, u.Type, k, v))
 						}
 					}
+					if res == "ok" {
+						by, err := w.store.ReadGhostKeyLock(*kp)
+						if err != nil || by == nil || *by != ver.PayloadHash() {
+							fail("C04:finalized-key-unbound", fmt.Sprintf("finalized %d but key %d of its output %d (type %#x) is not bound to it", id, k, u.Index, u.Type))
+						}
+					}
+				}
+				if len(u.Keys) > 0 {
+					tags = append(tags, fmt.Sprintf("finalize-keyed/type=%#x/%s", u.Type, res))
 				}
 			}
 		}
@@ -865,7 +974,9 @@ func execLocks(st *State, line string) Result {
 	tags = append(tags, call.kind+"/"+fk+"/"+cf+"/"+res)
 	leanIn := ""
 	if call.kind == "snapshot" {
-		leanIn = "snapshot " + fmtInts(append([]int{call.node, len(call.ids)}, call.ids...)...)
+		leanIn = "snapshot " + fmtInts(append([]int{call.node, len(call.ids)}, call.ids...)...) +
+			fmt.Sprintf(" ! %d", lockSideFlag(res, call.errText))
+		tags = append(tags, fmt.Sprintf("snapshot/side=%d", lockSideFlag(res, call.errText)))
 	}
 	return Result{Out: res + "|" + joinDump(post), LeanIn: leanIn, PropKey: key, PropDesc: desc, Tags: tags,
 		Nontrivial: conflict || res != "ok"}
@@ -1000,7 +1111,7 @@ func (w *lockWorld) execRace(line string) Result {
 		go func(i int) {
 			defer wg.Done()
 			<-start
-			results[i] = runLockCall(fns[i])
+			results[i], calls[i].errText = runLockCallText(fns[i])
 		}(i)
 	}
 	// readers: contention on the RWMutex and on Badger read transactions
@@ -1036,7 +1147,8 @@ func (w *lockWorld) execRace(line string) Result {
 		anyFork = anyFork || c.fork
 		ln := c.line
 		if c.kind == "snapshot" {
-			ln = "snapshot " + fmtInts(append([]int{c.node, len(c.ids)}, c.ids...)...)
+			ln = "snapshot " + fmtInts(append([]int{c.node, len(c.ids)}, c.ids...)...) +
+				fmt.Sprintf(" ! %d", lockSideFlag(results[i], c.errText))
 		}
 		obs = append(obs, ln+" => "+results[i])
 	}
@@ -1173,22 +1285,114 @@ func fmtInts(xs ...int) string {
 }
 
 type genTx struct {
-	id   int
-	ins  [][3]int
-	outs [][]int
+	id    int
+	actor int
+	ins   [][3]int
+	outs  []lockOut
 }
 
 func (t *genTx) line() string {
-	a := []int{t.id, len(t.ins)}
+	a := []int{t.id, t.actor, len(t.ins)}
 	for _, in := range t.ins {
 		a = append(a, in[0], in[1], in[2])
 	}
 	a = append(a, len(t.outs))
-	for _, ks := range t.outs {
-		a = append(a, len(ks))
-		a = append(a, ks...)
+	for _, o := range t.outs {
+		a = append(a, o.typ, len(o.keys))
+		a = append(a, o.keys...)
 	}
 	return "deftx " + fmtInts(a...)
+}
+
+// lockOldDeftx converts a corpus line of the first protocol version
+// ("deftx id nin {kind a b}* nout {nk k*}*", script outputs only) to the current one.
+func lockOldDeftx(line string) string {
+	f := strings.Fields(line)
+	if len(f) == 0 || f[0] != "deftx" {
+		return line
+	}
+	a, ok := atoiList(f[1:])
+	if !ok || len(a) < 2 {
+		return line
+	}
+	t := &genTx{id: a[0]}
+	p := 2
+	for i := 0; i < a[1]; i++ {
+		t.ins = append(t.ins, [3]int{a[p], a[p+1], a[p+2]})
+		p += 3
+	}
+	nout := a[p]
+	p++
+	for i := 0; i < nout; i++ {
+		nk := a[p]
+		t.outs = append(t.outs, lockOut{typ: 0, keys: append([]int{}, a[p+1:p+1+nk]...)})
+		p += 1 + nk
+	}
+	return t.line()
+}
+
+func lockOldCorpus(cs [][]string) [][]string {
+	for _, c := range cs {
+		for i := range c {
+			c[i] = lockOldDeftx(c[i])
+		}
+	}
+	return cs
+}
+
+// lockTypedCorpus (current protocol): keyed outputs of every materialised type finalized
+// without a prior admission of their keys (as the genesis load does), then another transaction
+// tries to reuse the keys; and finalizations that meet a key reserved by somebody else.
+var lockTypedCorpus = [][]string{{
+	"reset", "exceptions",
+	"deftx 1 1 1 0 0 0 2 164 1 1 0 1 2", "writetx 1", "snapshot 1 1 1", // NodeAccept key 1, script key 2
+	"lockghost 90 0 1 1", "lockghost 90 0 1 2", // both refused: bound to 1
+	"deftx 2 1 1 0 0 0 1 166 1 1", "writetx 2", "snapshot 1 1 2", // NodeRemove reusing key 1: refused
+	"deftx 3 2 1 0 0 0 1 163 1 5", "lockghost 91 0 1 5", "writetx 3", "snapshot 1 1 3", // NodePledge, key reserved by 91
+	"deftx 4 0 1 0 0 0 1 177 1 6", "writetx 4", "snapshot 1 1 4", "lockghost 92 0 1 6", // CustodianUpdateNodes
+	"deftx 5 0 1 0 0 0 1 169 1 7", "writetx 5", "snapshot 1 1 5", "lockghost 92 0 1 7", // WithdrawalClaim
+	"deftx 6 2 1 0 0 0 1 163 1 8", "writetx 6", "snapshot 1 1 6", "lockghost 92 0 1 8", // NodePledge by actor 2
+	"deftx 7 2 1 0 0 0 1 170 1 9", "writetx 7", "snapshot 1 1 7", "lockghost 92 0 1 9", // NodeCancel of actor 2
+	"deftx 8 1 1 0 0 0 1 166 1 10", "writetx 8", "snapshot 1 1 8", "lockghost 92 0 1 10", // NodeRemove of actor 1
+	"deftx 9 0 1 0 0 0 3 161 1 11 178 1 12 0 1 13", "writetx 9", "snapshot 1 1 9", // submit / slash are not materialised
+	"lockghost 92 0 2 11 12", "lockghost 93 0 1 13",
+	"deftx 10 0 1 0 0 0 1 85 1 14", "writetx 10", "snapshot 1 1 10", // unknown output type
+	"fulldump",
+}}
+
+// lockOutTypes: every output type the finalization code distinguishes (UnspentOutputs and the
+// switch of writeUTXO), plus one it does not know.
+var lockOutTypes = []int{
+	common.OutputTypeNodePledge, common.OutputTypeNodeAccept, common.OutputTypeNodeCancel, common.OutputTypeNodeRemove,
+	common.OutputTypeWithdrawalClaim, common.OutputTypeCustodianUpdateNodes,
+	common.OutputTypeWithdrawalSubmit, common.OutputTypeCustodianSlashNodes,
+}
+
+// genTypedOuts: n outputs with 0-2 keys from the pool; about a third are non-script outputs.
+// Keyed outputs of every type matter: their keys must be relocked at finalization.
+func genTypedOuts(r *Rand, n, keyPool int, funding bool) []lockOut {
+	var outs []lockOut
+	for j := 0; j < n; j++ {
+		o := lockOut{}
+		if r.Chance(1, 3) {
+			o.typ = Pick(r, lockOutTypes)
+			if funding && r.Chance(1, 2) {
+				o.typ = Pick(r, []int{common.OutputTypeNodeAccept, common.OutputTypeCustodianUpdateNodes})
+			}
+			if r.Chance(1, 40) {
+				o.typ = 0x55
+			}
+		}
+		nk := r.Intn(3)
+		if o.typ != 0 && nk == 0 && r.Chance(3, 4) {
+			nk = 1
+		}
+		for c := nk; c > 0; c-- {
+			o.keys = append(o.keys, 1+r.Intn(keyPool))
+		}
+		outs = append(outs, o)
+	}
+	return outs
 }
 
 func (t *genTx) lockInputsLine(fork bool) string {
@@ -1209,8 +1413,8 @@ func (t *genTx) lockInputsLine(fork bool) string {
 
 func (t *genTx) ghostLine(fork bool) string {
 	a := []int{t.id, b2i(fork), 0}
-	for _, ks := range t.outs {
-		a = append(a, ks...)
+	for _, o := range t.outs {
+		a = append(a, o.keys...)
 	}
 	a[2] = len(a) - 3
 	return "lockghost " + fmtInts(a...)
@@ -1219,23 +1423,15 @@ func (t *genTx) ghostLine(fork bool) string {
 func genLocks(r *Rand, i int, tier string) []string {
 	lines := []string{"reset", "exceptions"}
 	keyPool := r.Range(4, 10)
-	genOuts := func(n int) [][]int {
-		var outs [][]int
-		for j := 0; j < n; j++ {
-			var ks []int
-			for c := r.Intn(3); c > 0; c-- {
-				ks = append(ks, 1+r.Intn(keyPool))
-			}
-			outs = append(outs, ks)
-		}
-		return outs
-	}
+	genOuts := func(n int) []lockOut { return genTypedOuts(r, n, keyPool, false) }
 	// one or two funding transactions with genesis inputs
 	var txs []*genTx
 	nFund := r.Range(1, 2)
 	var slots [][2]int
 	for id := 1; id <= nFund; id++ {
-		t := &genTx{id: id, ins: [][3]int{{0, 0, 0}}, outs: genOuts(r.Range(2, 4))}
+		// funding transactions (genesis inputs) are finalized without any admission of their keys,
+		// like the genesis load; actor 1 becomes an accepted node when a NodeAccept output is there
+		t := &genTx{id: id, actor: 1, ins: [][3]int{{0, 0, 0}}, outs: genTypedOuts(r, r.Range(2, 4), keyPool, true)}
 		txs = append(txs, t)
 		lines = append(lines, t.line(), "writetx "+fmtInts(id))
 		if r.Chance(1, 6) {
@@ -1246,12 +1442,69 @@ func genLocks(r *Rand, i int, tier string) []string {
 			slots = append(slots, [2]int{id, j})
 		}
 	}
+	// keyed outputs of every materialised type, finalized without admission (like the genesis
+	// load), after a reservation by somebody else, or after their own admission; then reuse
+	if r.Chance(1, 2) {
+		id := 30
+		emit := func(typ, actor int) {
+			o := lockOut{typ: typ, keys: []int{1 + r.Intn(keyPool)}}
+			if r.Bool() {
+				o.keys = append(o.keys, 1+r.Intn(keyPool))
+			}
+			t := &genTx{id: id, actor: actor, ins: [][3]int{{0, 0, 0}}, outs: []lockOut{o}}
+			if r.Chance(1, 3) {
+				t.outs = append(t.outs, lockOut{typ: 0, keys: []int{1 + r.Intn(keyPool)}})
+			}
+			txs = append(txs, t)
+			lines = append(lines, t.line())
+			switch r.Intn(3) {
+			case 1:
+				lines = append(lines, "lockghost "+fmtInts(90+r.Intn(3), 0, 1, Pick(r, o.keys)))
+			case 2:
+				lines = append(lines, t.ghostLine(false))
+			}
+			lines = append(lines, "writetx "+fmtInts(id), "snapshot "+fmtInts(1, 1, id),
+				"lockghost "+fmtInts(93+r.Intn(2), b2i(r.Chance(1, 4)), 1, Pick(r, o.keys)))
+			id++
+		}
+		if r.Chance(1, 3) { // before any pledge is pending: a node is accepted, then removed
+			emit(common.OutputTypeNodeAccept, 9)
+			emit(common.OutputTypeNodeRemove, 9)
+		}
+		for q := r.Range(1, 3); q > 0; q-- {
+			actor := 4 + q
+			switch r.Intn(7) {
+			case 0:
+				emit(common.OutputTypeScript, actor)
+			case 1:
+				emit(common.OutputTypeNodeAccept, actor)
+			case 2: // a node is accepted, then removed
+				emit(common.OutputTypeNodeAccept, actor)
+				emit(common.OutputTypeNodeRemove, actor)
+			case 3:
+				emit(common.OutputTypeNodePledge, actor)
+			case 4: // a node pledges, then cancels
+				emit(common.OutputTypeNodePledge, actor)
+				emit(common.OutputTypeNodeCancel, actor)
+			case 5:
+				emit(common.OutputTypeWithdrawalClaim, actor)
+			default:
+				emit(common.OutputTypeCustodianUpdateNodes, actor)
+			}
+		}
+	}
 	// spenders with overlapping inputs, deposits and mints that collide
 	nSpend := r.Range(3, 7)
 	depPool := []int{1 + r.Intn(lockDepCount), 1 + r.Intn(lockDepCount)}
 	mintPool := []int{r.Range(1, 3), r.Range(1, 3)}
 	for id := nFund + 1; id <= nFund+nSpend; id++ {
-		t := &genTx{id: id, outs: genOuts(r.Range(1, 3))}
+		t := &genTx{id: id, actor: r.Range(0, 3), outs: genOuts(r.Range(1, 3))}
+		if r.Chance(1, 8) { // a further transaction with genesis input (always writable)
+			t.ins = [][3]int{{0, 0, 0}}
+			txs = append(txs, t)
+			lines = append(lines, t.line())
+			continue
+		}
 		switch c := r.Intn(10); {
 		case c < 6:
 			n := r.Range(1, 3)
@@ -1415,7 +1668,7 @@ func init() {
 		Rule: "a case = fresh BadgerStore, 1-2 finalized funding transactions, 3-7 spenders with overlapping UTXO/deposit/mint inputs and overlapping output keys, then 8-30 (thorough 10-60) admission / finalization-path / raw lock / WriteTransaction / WriteSnapshot calls; non-trivial = the call met a slot or key held by another transaction, or did not return ok",
 		Gen:  genLocks,
 		Exec: execLocks,
-		Corpus: [][]string{
+		Corpus: append(lockOldCorpus([][]string{
 			voutCorpus,
 			{ // takeover of a pending holder prunes its body; a finalized holder is not displaced
 				"reset", "exceptions",
@@ -1439,7 +1692,7 @@ func init() {
 				"snapshot 1 1 2", "lockdep 1 1 1",
 				"lockmint 5 1 4 0", "lockmint 5 2 4 0", "lockmint 5 2 4 1", "lockmint 5 2 5 0", "writetx 4", "lockmint 5 2 5 1", "writetx 5", "fulldump",
 			},
-		},
+		}), lockTypedCorpus...),
 	})
 }
 
@@ -1448,16 +1701,17 @@ func init() {
 func genLockrace(r *Rand, i int, tier string) []string {
 	lines := []string{"reset", "exceptions"}
 	keyPool := r.Range(3, 6)
-	outs := func(n int) [][]int {
-		var o [][]int
-		for j := 0; j < n; j++ {
-			var ks []int
-			for c := r.Intn(3); c > 0; c-- {
-				ks = append(ks, 1+r.Intn(keyPool))
+	outs := func(n int) []lockOut {
+		os := genTypedOuts(r, n, keyPool, false)
+		for j := range os { // races stay on script outputs, with a sprinkle of keyed node outputs
+			if os[j].typ != 0 && !r.Chance(1, 4) {
+				os[j].typ = 0
 			}
-			o = append(o, ks)
+			if os[j].typ == 0x55 {
+				os[j].typ = 0
+			}
 		}
-		return o
+		return os
 	}
 	fund := &genTx{id: 1, ins: [][3]int{{0, 0, 0}}, outs: outs(r.Range(2, 3))}
 	lines = append(lines, fund.line(), "writetx 1", "snapshot 1 1 1")
@@ -1470,7 +1724,7 @@ func genLockrace(r *Rand, i int, tier string) []string {
 	var txs []*genTx
 	nSpend := r.Range(3, 7)
 	for id := 2; id < 2+nSpend; id++ {
-		t := &genTx{id: id, outs: outs(r.Range(1, 2))}
+		t := &genTx{id: id, actor: r.Range(0, 2), outs: outs(r.Range(1, 2))}
 		switch c := r.Intn(10); {
 		case c < 6:
 			n := r.Range(1, 2)
@@ -1542,7 +1796,7 @@ func init() {
 		Rule: "a case = fresh namespace in a real BadgerStore, one finalized funding transaction, 3-7 spenders with colliding inputs/keys, 1-4 races of 2-7 calls issued by concurrent goroutines (plus 0-9 reader goroutines); the Lean driver searches a sequential order of the atomic model calls explaining results and final dump; non-trivial = two calls of a race requested the same slot",
 		Gen:  genLockrace,
 		Exec: execLocks,
-		Corpus: [][]string{{
+		Corpus: lockOldCorpus([][]string{{
 			"reset", "exceptions", "deftx 1 1 0 0 0 2 1 1 1 2", "writetx 1", "snapshot 1 1 1",
 			"race 4 ; lockutxos 20 0 1 1 0 ; lockutxos 21 0 1 1 0 ; lockutxos 22 0 1 1 0 ; lockutxos 23 0 1 1 0",
 			"race 3 ; lockghost 20 0 1 5 ; lockghost 21 0 1 5 ; lockghost 101 1 1 5",
@@ -1553,6 +1807,6 @@ func init() {
 			"deftx 2 1 3 1 0 2 0 0", "deftx 6 1 3 1 1 2 1 4 2 3 5",
 			"lockutxos 2 0 1 1 0", "writetx 2", "lockutxos 2 0 1 1 1",
 			"race 2 ; lockutxos 6 1 1 1 1 ; writetx 2", "fulldump",
-		}},
+		}}),
 	})
 }
